@@ -478,13 +478,39 @@ class ExcelParser(ExcelParserTokens):
 
             # standard postfix operators
             if ("%".find(currentChar()) != -1):
+                folded = False
                 if (len(token) > 0):
-                    tokens.add(float(token) / 100, self.TOK_TYPE_OPERAND)
+                    try:
+                        tokens.add(float(token) / 100, self.TOK_TYPE_OPERAND)
+                        folded = True
+                    except ValueError:
+                        # a reference or a name (=A1%)
+                        tokens.add(token, self.TOK_TYPE_OPERAND)
                     token = ""
-                else:
+                if not folded:
+                    # x% is (x*0.01): the percent sign binds tighter than any
+                    # binary operator, so what precedes it (an operand, or a
+                    # parenthesised group or function call) is wrapped.
+                    start = len(tokens.items) - 1
+                    while start > 0 and tokens.items[start].ttype == \
+                            self.TOK_TYPE_WSPACE:
+                        start -= 1
+                    depth = 0
+                    while start >= 0:
+                        subtype = tokens.items[start].tsubtype
+                        if subtype == self.TOK_SUBTYPE_STOP:
+                            depth += 1
+                        elif subtype == self.TOK_SUBTYPE_START:
+                            depth -= 1
+                        if depth <= 0:
+                            break
+                        start -= 1
+                    tokens.items.insert(max(start, 0), f_token(
+                        "", self.TOK_TYPE_SUBEXPR, self.TOK_SUBTYPE_START))
                     tokens.add('*', self.TOK_TYPE_OP_IN)
                     tokens.add(0.01, self.TOK_TYPE_OPERAND)
-                # tokens.add(currentChar(), self.TOK_TYPE_OP_POST)
+                    tokens.add("", self.TOK_TYPE_SUBEXPR,
+                               self.TOK_SUBTYPE_STOP)
                 offset += 1
                 continue
 
